@@ -197,6 +197,12 @@ def main():
                 rep = run_replay(pid, {'name': name, 'func': s['func'], 'param': s['param']}, args) \
                     if args is not None else {'reproduced': False, 'error': 'unparsable counterexample'}
                 r['replay'] = rep
+                if rep.get('error') and not rep.get('reproduced'):
+                    # a crashed replay decides nothing: harness error, never silently dropped
+                    r['status'] = 'error'
+                    r['error'] = 'replay failed: ' + str(rep.get('error'))[:600]
+                    results[name] = r
+                    continue
                 if rep.get('reproduced'):
                     key = rep.get('key', '?')
                     if key in known_keys or (s['kind'] == 'probe' and key == s['param'].get('probe_key')):
